@@ -138,6 +138,34 @@ _mk("FxpMul", "__mul__", _mul_spec, doc="a * int exact; a * b = floor(rep a * re
 _mk("FxpTrueDiv", "__truediv__", lambda X, Y, R, y: _floordiv(X * R, Y), doc="a / b = floor(rep a * R / rep b)")
 _mk("FxpFloorDiv", "__floordiv__", lambda X, Y, R, y: _floordiv(X, Y) * R, doc="a // b = floor(a / b), an integer")
 _mk("FxpMod", "__mod__", lambda X, Y, R, y: _mod(X, Y), doc="a % b = a - b * floor(a / b)")
+
+
+@register
+class FxpDivMod(_Fxp):
+    """divmod(a, b) = (a // b, a % b): the SAME two numbers the two operators give -- the quotient an integer in
+    fixed-point representation (floor(a/b) * R), the remainder unscaled."""
+    name = "pysnark.fixedpoint:LinCombFxp.__divmod__"
+    op = "__divmod__"
+
+    def configs(self, tier):
+        return [dict(cfg, **({"raises_only": True} if cfg["kind"] in ("float1", "float3", "float4") else {}))
+                for cfg in _Fxp.configs(self, tier)]
+
+    def post(self, c, r, x, y):
+        R = 1 << c.cfg["res"]
+        X, Y = c.v(x), self._yrep
+        if r is NotImplemented:
+            return {"V.not_implemented": False}
+        if isinstance(y, int) and not isinstance(y, bool):
+            idiv_scale(X, term(y), R)
+        ok = isinstance(r, tuple) and len(r) == 2 and all(isinstance(e, c.LinCombFxp) for e in r)
+        d = {"V.type": ok}
+        if ok:
+            quo, rem = r
+            d["V.quotient"] = Implies(isg(c), Eq(c.v(quo), _floordiv(X, Y) * R))
+            d["V.remainder"] = Implies(isg(c), Eq(c.v(rem), _mod(X, Y)))
+            d["V.inv"] = And(c.inv(quo), c.inv(rem))
+        return d
 _mk("FxpRTrueDiv", "__rtruediv__", lambda X, Y, R, y: _floordiv(Y * R, X), kinds=("lc", "int", "float0"), doc="b / a")
 _mk("FxpRFloorDiv", "__rfloordiv__", lambda X, Y, R, y: _floordiv(Y, X) * R, kinds=("lc", "int", "float0"), doc="b // a")
 _mk("FxpRMod", "__rmod__", lambda X, Y, R, y: _mod(Y, X), kinds=("lc", "int", "float0"), doc="b % a")
